@@ -113,6 +113,15 @@ func RunC09(t *testing.T, tape *Tape) *Outcome {
 	twin := entry == 3 && !background && !earlyFollow && tape.Choose(4) == 3
 	prog := GenC09Imp(tape, mode == 3, withImport)
 	cfg := SchedCfg(tape, true)
+	if tape.Choose(4) == 3 {
+		// preemption between the statements of stop(): the order in which the
+		// generation advances and the cancellation channel is closed matters
+		for i, st := range interp.VerifSites {
+			if st.File == "interp.go" && st.Func == "stop" && (st.Kind == "stmt" || st.Kind == "lock") {
+				cfg.AlwaysSites = append(cfg.AlwaysSites, i)
+			}
+		}
+	}
 	cfg.MaxOps = 1500
 	cfg.MaxDecisions = 6000
 	o.Desc = fmt.Sprintf("k=%d entry=%s mode=%d %s", k, entryName[entry], mode, prog.Desc)
@@ -491,6 +500,26 @@ func RunC09(t *testing.T, tape *Tape) *Outcome {
 				"task %s (%s) performed %d host side effects %v after the cancellation", tk.Name, kindOf(tk), tk.HostPostFault, ids)
 		}
 	}
+	// I9: a goroutine released from a channel operation by the cancellation starts
+	// no further operation (whenever that happens, before or after the return)
+	for _, tk := range tasks {
+		if tk.Client || !tk.ReleasedByDone || (r.TasksAtReturn > 0 && tk.idx >= r.TasksAtReturn) {
+			continue
+		}
+		if earlyFollow && tk.Name == rootName {
+			// the listed finding (root-frame code resumed by the next evaluation) is
+			// reported by I3-I5 for this task
+			continue
+		}
+		o.FaultFired["goroutines-released-by-the-cancellation-channel"]++
+		if n := tk.Ops - tk.OpsAtRelease; n > 0 {
+			b := bodyOf[tk.idx]
+			if b == "" {
+				b = "unknown"
+			}
+			o.addV("C09", "I9", "I9 ops-after-release-by-cancellation body="+b, "task %s (%s) was released from a channel operation by the cancellation and started %d more interpreted operations", tk.Name, b, n)
+		}
+	}
 	// I5
 	if r.BudgetHit && !r.Returned.Load() {
 		o.Inconclusive = "step budget exhausted before the cancelled call was scheduled to return"
@@ -538,12 +567,8 @@ func RunC09(t *testing.T, tape *Tape) *Outcome {
 		if ret3.err != wantErr {
 			o.addV("C09", "I7", "I7 expired-context wrong-error", "EvalWithContext given the already cancelled context returned %v (value %v), want %v", ret3.err, ret3.v, wantErr)
 		}
-		for _, e := range evs {
-			if e.Kind == host.KTick && e.Tag == 950 {
-				o.addV("C09", "I7", "I7 expired-context evaluation-executed", "the source given with an already cancelled context was executed")
-				break
-			}
-		}
+		// (Whether some of the source executes before the caller has run stop() is a
+		// race between the two goroutines which no property decides: not judged.)
 	}
 	// I6
 	if entry == 3 && (!r.aborting.Load() || ret2.done.Load()) {
